@@ -202,10 +202,11 @@ def runJob (cfg : Cfg) (s : St) (ins : List Path) (flt : Option Fault) : St × O
   | none => (applyMuts s1 ms, .ok, ms.length)
   | some f =>
     -- graceful cancellation (SIGTERM → job ctx): before/during the merge the job gives up without any
-    -- storage mutation (pos ≥ 100); once the merged file exists, no storage call of the job consults
-    -- the context any more and the job runs to completion
+    -- storage mutation (pos 100: at the first download read, 101: after the last one); once the merged file exists, no storage call of the job consults
+    -- the context any more and the job runs to completion; a job none of whose inputs exist any more
+    -- has nothing to download or merge and completes ("all files already compacted")
     if f.kind == .cancel then
-      (if f.pos ≥ 100 then (s1, .killed, 0) else (applyMuts s1 ms, .ok, ms.length))
+      (if (f.pos = 100 ∨ f.pos = 101) ∧ (validInputs s ins).isEmpty = false then (s1, .killed, 0) else (applyMuts s1 ms, .ok, ms.length))
     else if f.pos ≥ 1000 then (applyMuts s1 ms, outcomeOf f.kind, ms.length)
     else if f.pos < ms.length then
       let pre := ms.take f.pos
